@@ -275,17 +275,20 @@ fn add_new_mapping(state: &mut State, new_key: &KeyCode, m: &Mapping) -> StepRes
   
   if produces_action_key(m) {
     events.append(&mut release_action_mappings(state));
-    let should_absorb = {
-      match &state.absorbing_trigger {
-        Some(absorbing_trigger) => *absorbing_trigger != *new_key,
-        None => true
-      }
-    };
-    if should_absorb {
-      events.append(&mut release_absorbed_keys(state));
-      // release_absorbed_keys can hand keys back to pass-through; those that `m` consumes are consumed too
-      consume_pass_through_keys(state, m, &mut events);
+  }
+  
+  let should_absorb = {
+    match &state.absorbing_trigger {
+      Some(absorbing_trigger) => *absorbing_trigger != *new_key,
+      None => true
     }
+  };
+  // Keys absorbed under another trigger have had their one keystroke: let go of them before this mapping
+  // presses a non-modifier key or becomes the absorbing trigger itself.
+  if should_absorb && (produces_action_key(m) || m.absorbing.len() > 0) {
+    events.append(&mut release_absorbed_keys(state));
+    // release_absorbed_keys can hand keys back to pass-through; those that `m` consumes are consumed too
+    consume_pass_through_keys(state, m, &mut events);
   }
   
   for new_key in &m.to {
